@@ -102,7 +102,11 @@ extern "C" {
 		void * p = __real_malloc(n);
 		if (g_sim.active && g_sim.in_lib > 0) {
 			g_sim.mallocs++;
-			if (g_sim.track_blocks && g_sim.blocks && p) { int s = g_sim.in_lib; g_sim.in_lib = 0; (*g_sim.blocks)[p] = n; g_sim.in_lib = s; }
+			if (g_sim.track_blocks && g_sim.blocks && p) {
+				uintptr_t ra = (uintptr_t)__builtin_return_address(0);
+				int tag = (ra >= g_sim.range_lo && ra < g_sim.range_hi) ? g_sim.range_tag : g_sim.alloc_tag;
+				int s = g_sim.in_lib; g_sim.in_lib = 0; (*g_sim.blocks)[p] = Sim::Block{n, tag}; g_sim.in_lib = s;
+			}
 		}
 		return p;
 	}
@@ -110,7 +114,7 @@ extern "C" {
 		void * p = __real_calloc(a, b);
 		if (g_sim.active && g_sim.in_lib > 0) {
 			g_sim.mallocs++;
-			if (g_sim.track_blocks && g_sim.blocks && p) { int s = g_sim.in_lib; g_sim.in_lib = 0; (*g_sim.blocks)[p] = a * b; g_sim.in_lib = s; }
+			if (g_sim.track_blocks && g_sim.blocks && p) { int s = g_sim.in_lib; g_sim.in_lib = 0; (*g_sim.blocks)[p] = Sim::Block{a * b, g_sim.alloc_tag}; g_sim.in_lib = s; }
 		}
 		return p;
 	}
@@ -140,8 +144,9 @@ extern "C" {
 		if (q != p) g_sim.realloc_moved++;
 		if (g_sim.track_blocks && g_sim.blocks) {
 			int s = g_sim.in_lib; g_sim.in_lib = 0;
-			if (p) g_sim.blocks->erase(p);
-			if (q) (*g_sim.blocks)[q] = n;
+			int tag = g_sim.alloc_tag;
+			if (p) { auto it = g_sim.blocks->find(p); if (it != g_sim.blocks->end()) { tag = it->second.tag; g_sim.blocks->erase(it); } }
+			if (q) (*g_sim.blocks)[q] = Sim::Block{n, tag};
 			g_sim.in_lib = s;
 		}
 		return q;
